@@ -18,7 +18,74 @@ def decode_input(cfg):
     return out
 
 
+class RefORSet:
+    """reference add-wins observed-remove set with WHOLE vector clocks (what distsys/resources/aworset.go implements on the pinned tree):
+    a write takes the element's observed clock from whichever map holds it, increments the writer's component, and clears the other map"""
+    def __init__(self, spec=False):
+        # spec=True: the variant shopcart.tla's AWORSet mapping macro writes down instead: crossing from one map to the other copies ONLY
+        # the writer's own component of the observed clock, and Merge drops the add clock whenever addk <= remk componentwise
+        self.add, self.rem, self.spec = {}, {}, spec
+
+    @staticmethod
+    def cmp(a, b):      # -1 LT, 0 EQ, 1 GT, 2 concurrent
+        res = 0
+        for k in set(a) | set(b):
+            x, y = a.get(k, 0), b.get(k, 0)
+            if x > y:
+                res = 1 if res in (0, 1) else 2
+            elif x < y:
+                res = -1 if res in (0, -1) else 2
+        return res
+
+    def write(self, p, is_add, e):
+        mine, other = (self.add, self.rem) if is_add else (self.rem, self.add)
+        base = mine.get(e) or other.get(e) or {}
+        vc = dict(base)
+        if self.spec and not mine.get(e) and other.get(e):
+            vc = {p: base.get(p, 0)}
+        vc[p] = vc.get(p, 0) + 1
+        mine[e] = vc
+        other.pop(e, None)
+
+    @staticmethod
+    def merged(x, y):
+        def mk(a, b):
+            out = {e: dict(v) for e, v in a.items()}
+            for e, v in b.items():
+                out[e] = {k: max(out.get(e, {}).get(k, 0), v.get(k, 0)) for k in set(out.get(e, {})) | set(v)}
+            return out
+        addk, remk = mk(x.add, y.add), mk(x.rem, y.rem)
+        r = RefORSet(x.spec)
+        if x.spec:
+            for e in set(addk) | set(remk):
+                a, b = addk.get(e, {}), remk.get(e, {})
+                if all(a.get(k, 0) <= b.get(k, 0) for k in set(a) | set(b)):
+                    if any(b.values()):
+                        r.rem[e] = b
+                else:
+                    r.add[e] = a
+            return r
+        r.add = {e: v for e, v in addk.items() if e not in remk or RefORSet.cmp(v, remk[e]) != -1}
+        r.rem = {e: v for e, v in remk.items() if e not in addk or RefORSet.cmp(addk[e], v) == -1}
+        return r
+
+    def read(self):
+        if self.spec:
+            return sorted(e for e, v in self.add.items() if not all(v.get(k, 0) <= self.rem.get(e, {}).get(k, 0) for k in v))
+        return sorted(e for e, v in self.add.items() if e not in self.rem or RefORSet.cmp(v, self.rem[e]) != -1)
+
+
+def gen_readd(rng):
+    """one element, 2-3 nodes, a long add / remove sequence and frequent merges: re-adds after a remove that was seen elsewhere"""
+    n = rng.choice([2, 2, 3])
+    ln = rng.randint(9, 12)
+    cfg = {"NumNodes": n, "NumElems": 1, "InputLen": ln, "INPUT": rng.randrange(2 ** ln)}
+    return {"system": NAME, "kind": "auto", "cfg": cfg, "auto": {"seed": rng.getrandbits(60) | 1, "steps": 9 * ln + 10}}
+
+
 def gen(rng):
+    if rng.random() < 0.5:
+        return gen_readd(rng)
     n = rng.choice([1, 2, 2, 3, 3])
     ne = rng.choice([1, 2, 2, 3])
     ln = rng.randint(2, 9)
@@ -48,6 +115,12 @@ def analyse(case, res):
     pre = res["init"]
     last_o = None
     merges = removes_applied = adds_applied = 0
+    ref = {a: RefORSet() for a in range(1, n + 1)}       # reference OR-set per node, fed the same commands and merges
+    sref = {a: RefORSet(True) for a in range(1, n + 1)}  # the spec macro's variant, likewise
+    know = {a: frozenset() for a in range(1, n + 1)}     # which committed commands each replica has incorporated
+    read_of = {}                                          # knowledge -> what the deployment type read with exactly that knowledge
+    spec_differs = 0
+    spec_known = False
 
     def maps(state):
         crdt = fn_dict(state["crdt"])
@@ -89,7 +162,45 @@ def analyse(case, res):
                 for e in range(ne):
                     if any(add[a][e]) and any(rem[a][e]):
                         fails.append(("shopnode-add-and-remove-clocks", "step %d: crdt[%d] has both an add and a remove clock for element %d" % (i, a + 1, e)))
-            if oc != "commit" and post != pre:
+            # the deployment's CRDT type (resources.AWORSet, cmd/c16 keeps one real value per node in step: "shadow")
+            if oc == "commit" and proc == "merge":
+                i1, i2 = ob["picks"][0], ob["picks"][1]
+                mm = RefORSet.merged(ref[i1], ref[i2])
+                ref[i1], ref[i2] = mm, RefORSet.merged(mm, mm)
+                sm = RefORSet.merged(sref[i1], sref[i2])
+                sref[i1], sref[i2] = sm, RefORSet.merged(sm, sm)     # two objects: a later write must not alias
+                know[i1] = know[i2] = know[i1] | know[i2]
+            elif oc == "commit" and ob["label"] == "ANode.nodeLoop":
+                pp = int(proc[1:])
+                c0, e0 = cmds(pre)[0]
+                ref[pp].write(pp, c0, e0)
+                sref[pp].write(pp, c0, e0)
+                know[pp] = know[pp] | {i}
+            sh = post.get("shadow")
+            if sh is not None:
+                shd = fn_dict(sh)
+                for a in range(n):
+                    real, spec, want = sorted(shd[a + 1]["s"]), query(add, rem, a), ref[a + 1].read()
+                    if real != want:
+                        fails.append(("shopnode-deployment-aworset-differs",
+                                      "step %d: after the same commands and merges node %d's resources.AWORSet reads %r, an add-wins observed-remove set reads %r"
+                                      % (i, a + 1, real, want)))
+                        break
+                    seen = read_of.setdefault(know[a + 1], (real, i, a + 1))
+                    if seen[0] != real:
+                        fails.append(("shopnode-deployment-equal-knowledge-different-read",
+                                      "step %d: node %d's resources.AWORSet reads %r; with exactly the same commands incorporated node %d read %r at step %d"
+                                      % (i, a + 1, real, seen[2], seen[0], seen[1])))
+                        break
+                    if real != spec:
+                        spec_differs += 1
+                        if spec == sref[a + 1].read() and not spec_known:
+                            # the generated code did exactly what the spec's macro says; the macro itself is not an observed-remove set
+                            spec_known = True
+                            fails.append(("shopcart-spec-aworset-own-component-only",
+                                          "step %d: node %d: the spec's AWORSet macro reads %r where the deployment's resources.AWORSet (and an add-wins observed-remove "
+                                          "set) reads %r" % (i, a + 1, spec, real)))
+            if oc != "commit" and {k: v for k, v in post.items() if k != "shadow"} != {k: v for k, v in pre.items() if k != "shadow"}:
                 fails.append(("abort-changed-state", "step %d: %s attempt of %s changed the spec state" % (i, oc, proc)))
             if proc == "merge":
                 pk = ob["picks"]
@@ -122,7 +233,7 @@ def analyse(case, res):
             l3 = lambda rows: vlib.coq_list([vlib.coq_list([coq_nats(v) for v in r]) for r in rows])
             o = "(mkObs %s %s %s %s %s)" % (l3(add), l3(rem), vlib.coq_list(["(%s,%d)" % (vlib.coq_bool(c), e) for c, e in q]), outs,
                                             vlib.coq_list([NPC[pcs.pc["n%d" % k]] for k in range(1, n + 1)]))
-            same = oc != "commit" and post == pre and steps and last_o == o
+            same = oc != "commit" and steps and last_o == o
             steps.append("(%s,(%d,%s))" % (ev, OUT[oc], "None" if same else "Some " + o))
             last_o = o
             pre = post
@@ -132,5 +243,6 @@ def analyse(case, res):
         breaks.append("observation outside the typed model's universe: %r" % (e,))
     out["coq"] = "(mkCfg %d %d %s, [%s])" % (n, ne, vlib.coq_list(["(%s,%d)" % (vlib.coq_bool(c), e) for c, e in inp]), ";\n  ".join(steps))
     out["nontrivial"] = merges >= 1 and removes_applied >= 1 and adds_applied >= 1 if n >= 2 else (removes_applied >= 1 and adds_applied >= 1)
-    out["stats"] = {"merges": merges, "adds_applied": adds_applied, "removes_applied": removes_applied}
+    out["stats"] = {"merges": merges, "adds_applied": adds_applied, "removes_applied": removes_applied,
+                    "steps_where_spec_AWORSet_macro_and_resources_AWORSet_read_differently": spec_differs}
     return out
